@@ -162,5 +162,22 @@ OrientAllowed(e) ==
      /\ Along(e.tcol, T) /\ Abs(Dot3(e.tcol, e.tcol) - 1048576 * a2) <= (1048576 * a2) \div 2000 + 2048 * LInf(A)
      /\ e.tl = <<0, 0, 0>> /\ e.last = <<0, 0, 0, 1024>>
 
+\* 3x3 matrices: affine maps of the plane, e.M and e.N given by their two upper rows <<a, b, tx>>, <<c, d, ty>>
+\* (integers); e.p a lattice point.  Observed (scale SC): e.ap = M applied to the point, e.av = M applied to the
+\* VECTOR p (judged only when M has no translation, see the known finding about vectors), e.mn = the rows of
+\* M o N (first N), e.nm = those of M then N (first M), e.mnp = (M o N) applied to the point.
+M3Pt(M, p) == <<M[1][1] * p[1] + M[1][2] * p[2] + M[1][3], M[2][1] * p[1] + M[2][2] * p[2] + M[2][3]>>
+M3Mul(A, B) == <<<<A[1][1] * B[1][1] + A[1][2] * B[2][1], A[1][1] * B[1][2] + A[1][2] * B[2][2], A[1][1] * B[1][3] + A[1][2] * B[2][3] + A[1][3]>>,
+                 <<A[2][1] * B[1][1] + A[2][2] * B[2][1], A[2][1] * B[1][2] + A[2][2] * B[2][2], A[2][1] * B[1][3] + A[2][2] * B[2][3] + A[2][3]>>>>
+M3Allowed(e) ==
+  LET ex(P, o) == \A i \in 1..2 : \A j \in 1..3 : Abs(o[i][j] - P[i][j] * SC) <= 2 + Abs(P[i][j])
+      pt(q, o) == \A i \in 1..2 : Abs(o[i] - q[i] * SC) <= 2 + Abs(q[i])
+  IN /\ e.panic = 0
+     /\ pt(M3Pt(e.M, e.p), e.ap)
+     /\ (e.M[1][3] = 0 /\ e.M[2][3] = 0) => pt(M3Pt(e.M, e.p), e.av)
+     /\ ex(M3Mul(e.M, e.N), e.mn) /\ e.mn[3] = <<0, 0, SC>>
+     /\ ex(M3Mul(e.N, e.M), e.nm) /\ e.nm[3] = <<0, 0, SC>>
+     /\ pt(M3Pt(e.M, M3Pt(e.N, e.p)), e.mnp)
+
 Allowed(e) == CoreAllowed(e) /\ VecClass(e, PathMat(e.path), Tol(MaxAbs(PathMat(e.path)) + 4)) = "lin"
 =============================================================================
